@@ -1,7 +1,7 @@
 (* Props/C03.v — Indexing and concatenation follow Python sequence semantics.
    Only statements, each closed by a lemma of Proofs/, followed by Print Assumptions. *)
 Require Import Hdl21.Base.PyInt Hdl21.Spec.PySlice Hdl21.Model.Slice Hdl21.Model.Resolve
-               Hdl21.Proofs.SliceProofs Hdl21.Proofs.ResolveProofs.
+               Hdl21.Proofs.SliceProofs Hdl21.Proofs.ResolveProofs Hdl21.Model.C03Loop Hdl21.Proofs.C03LoopProofs.
 
 (* 1. integer indices: -w <= i < w selects exactly bit i mod w, width 1 *)
 Theorem C03_index_in_range w i : 0 <= w -> - w <= i < w ->
@@ -98,6 +98,41 @@ Theorem C03_no_bit_outside x bs id k : xbits x = Ok bs -> In (id, k) bs ->
 Proof. intros H. exact (xbits_inside x bs H id k). Qed.
 Print Assumptions C03_no_bit_outside.
 
+(* ---- strengthening round: sources of port references that mention one another (Model/C03Loop.v) ---- *)
+
+(* 11. the bit walker of ResolvePortRefs.untie_source_loops - through slices by the slice's index list, through
+       concatenations by subtracting part widths - arrives, for EVERY index, at the element Python's selection has
+       at that index (and fails exactly where Python's list has no such element) *)
+Theorem C03_walk_python x bs idx : xbits x = Ok bs -> walk x idx = pick bs idx.
+Proof. intros H. exact (walk_pick x bs H idx). Qed.
+Print Assumptions C03_walk_python.
+
+(* 12. followed across references, for every system of sources each of which is a valid expression, every bound on the
+       number of references crossed and every starting bit: the walker ends where Python's selection ends *)
+Theorem C03_loop_resolution e fuel a : env_ok e = true -> chase_model e fuel a = chase_spec e fuel a.
+Proof. intros H. exact (chase_model_spec e H fuel a). Qed.
+Print Assumptions C03_loop_resolution.
+
+Theorem C03_loop_sources e fuel src : env_ok e = true -> src_ok src = true ->
+  source_dests walk e fuel src = source_dests walk_spec e fuel src.
+Proof. exact (source_dests_model_spec e fuel src). Qed.
+Print Assumptions C03_loop_sources.
+
+(* 13. a bit that arrives does so whatever larger bound is used, it arrives at a Signal (not at a reference), and
+       inside that Signal: no bit outside its signal across references either *)
+Theorem C03_loop_stable e fuel a b n : chase_model e fuel a = Ok (DBit b) -> chase_model e (fuel + n) a = Ok (DBit b).
+Proof. intros H. exact (chase_stable walk e fuel a b H n). Qed.
+Print Assumptions C03_loop_stable.
+
+Theorem C03_loop_arrives_at_signal e fuel a b : chase_model e fuel a = Ok (DBit b) -> lookup e (fst b) = None.
+Proof. exact (chase_arrives_signal walk e fuel a b). Qed.
+Print Assumptions C03_loop_arrives_at_signal.
+
+Theorem C03_loop_no_bit_outside e fuel a b : env_ok e = true -> chase_model e fuel a = Ok (DBit b) ->
+  b = a \/ exists w, In (fst b, w) (concat (map (fun p => leaves (snd p)) e)) /\ 0 <= snd b < w.
+Proof. intros He. exact (chase_inside e He fuel a b). Qed.
+Print Assumptions C03_loop_no_bit_outside.
+
 (* non-vacuity: concrete, non-trivial instances of the hypotheses *)
 Example C03_ex_stride : slice_inner 4 (Sl (Some 1) None (Some 2)) = Ok {| top := 4; bot := 1; step := 2; width := 2 |}
   /\ py_indices 4 (Some 1) None 2 = [1; 3].
@@ -109,3 +144,17 @@ Example C03_ex_nested :
   xbits x = Ok [(0%N, 1); (1%N, 3); (1%N, 1)] /\
   list_flat x = Ok [FSl 0 3 1 2; FSl 1 4 3 4; FSl 1 4 1 2].
 Proof. split; reflexivity. Qed.
+
+(* i1.a = Concat(s[0], i2.a[1::-1]); i2.a = Concat(t[0:2], i1.a[0])   (s = 0, t = 1, i1.a = 101, i2.a = 102) *)
+Example C03_ex_loop :
+  let e := [(101%N, XConcat [XSlice (XSig 0 4) (Idx 0); XSlice (XSig 102 3) (Sl (Some 1) None (Some (-1)))]);
+            (102%N, XConcat [XSlice (XSig 1 4) (Sl (Some 0) (Some 2) None); XSlice (XSig 101 3) (Idx 0)])] in
+  env_ok e = true /\
+  source_dests walk e 7 (XSig 101 3) = Ok [DBit (0%N, 0); DBit (1%N, 1); DBit (1%N, 0)] /\
+  source_dests walk e 7 (XSig 102 3) = Ok [DBit (1%N, 0); DBit (1%N, 1); DBit (0%N, 0)].
+Proof. repeat split; reflexivity. Qed.
+(* bits that go round: i1.a = Concat(i2.a[0], s); i2.a = Concat(i1.a[0], s) *)
+Example C03_ex_round :
+  let e := [(101%N, XConcat [XSlice (XSig 102 2) (Idx 0); XSig 0 1]); (102%N, XConcat [XSlice (XSig 101 2) (Idx 0); XSig 0 1])] in
+  source_dests walk e 5 (XSig 101 2) = Ok [DRound; DBit (0%N, 0)].
+Proof. reflexivity. Qed.
